@@ -35,6 +35,32 @@ def family(rng):
     return ['scenario', ['debug', 1], ['start', 0], ['flags', 1], ['locks', 2], ['roots'] + roots]
 
 
+def closed_holder(rng):
+    """a holder (re-entrant at depth 1-3) is closed forcefully - its own inner scope ends by a deadline or it is volatile and the
+    inner body ends - while contenders of an outer scope are queued for the lock; they must get it one after the other"""
+    l = 0
+    depth = rng.randint(1, 3)
+    inner = [['avail', l], ['sleep', rng.choice([20, 50])]]
+    for _ in range(depth):
+        inner = [['lock', l] + inner]
+    holder = ['prog'] + inner
+    vol = rng.random() < 0.5
+    t_close = rng.choice([2, 3, 5])
+    waiters = []
+    for i in range(rng.randint(1, 4)):
+        body = [['avail', l], ['sleep', rng.choice([1, 2, 10])]]
+        if rng.random() < 0.3:
+            body = [['lock', l] + body]
+        waiters.append(['spawn', 0, 10 + i, rng.choice([None, F(1, 2), 1, F(3, 2)]), None, False,
+                        ['prog', ['lock', l] + body, ['avail', l]]])
+    if vol:
+        inner_scope = ['scope', 1, ['none'], ['spawn', 1, 0, None, None, True, holder], ['sleep', t_close]]
+    else:
+        inner_scope = ['scope', 1, ['delay', t_close], ['spawn', 1, 0, None, None, False, holder], ['sleep', 100]]
+    main = ['prog', ['scope', 0, ['none']] + waiters + [inner_scope], ['sleep', 1], ['avail', l], ['log', 999]]
+    return ['scenario', ['debug', 1], ['start', 0], ['flags', 1], ['locks', 2], ['roots', main]]
+
+
 def nontrivial(impl):
     enters = {e.split(':')[2] for e in impl['events'] if ':lenter:' in e}
     return len(enters) >= 2
@@ -44,14 +70,14 @@ def run(tier, seed, drv):
     st = msuite.Suite(PID, drv, 'C09', TAGS)
     st.res.rule = ('(a) contender families: 2-5 tasks in one (until-)scope taking/re-entering 2 locks with random arrival and '
                    'hold times, plus cancels injected after t time units and k postponements, until-deadlines and '
-                   'volatile contenders closed at scope end; (b) random whole-API programs with a lock-heavy profile; '
+                   'volatile contenders closed at scope end; a re-entrant holder closed with its own inner scope while contenders of an outer scope are queued; (b) random whole-API programs with a lock-heavy profile; '
                    'non-trivial = at least two different activities entered a lock; distinct = distinct scenario')
     n = 150 if tier == 'quick' else 6000
     for sc in msuite.corpus(PID):
         st.check(msuite.fix_fractions(sc), nontrivial=nontrivial)
     for i in range(n):
         rng = rng_for(seed, 'c09', i)
-        sc = family(rng) if i % 2 == 0 else gen.gen_scenario(rng, PROFILE)
+        sc = closed_holder(rng) if i % 8 == 3 else family(rng) if i % 2 == 0 else gen.gen_scenario(rng, PROFILE)
         st.check(sc, nontrivial=nontrivial)
     return st.finish()
 
